@@ -72,7 +72,7 @@ func (s *Store) Contracts(filter contracts.ContractFilter) (contracts []contract
 
 	contractQuery := fmt.Sprintf(`SELECT c.contract_id, rt.contract_id AS renewed_to, rf.contract_id AS renewed_from, c.contract_status, c.negotiation_height, c.formation_confirmed,
 	COALESCE(c.revision_number=c.confirmed_revision_number, false) AS revision_confirmed, c.resolution_height, c.locked_collateral, c.rpc_revenue,
-	c.storage_revenue, c.ingress_revenue, c.egress_revenue, c.account_funding, c.risked_collateral, c.raw_revision, c.host_sig, c.renter_sig
+	c.storage_revenue, c.ingress_revenue, c.egress_revenue, c.registry_read, c.registry_write, c.account_funding, c.risked_collateral, c.raw_revision, c.host_sig, c.renter_sig
 FROM contracts c
 INNER JOIN contract_renters r ON (c.renter_id=r.id)
 LEFT JOIN contracts rt ON (c.renewed_to=rt.id)
@@ -572,7 +572,7 @@ func (s *Store) ExpireV2ContractSectors(height uint64) error {
 func getContract(tx *txn, contractID int64) (contracts.Contract, error) {
 	const query = `SELECT c.contract_id, rt.contract_id AS renewed_to, rf.contract_id AS renewed_from, c.contract_status, c.negotiation_height, c.formation_confirmed,
 	COALESCE(c.revision_number=c.confirmed_revision_number, false) AS revision_confirmed, c.resolution_height, c.locked_collateral, c.rpc_revenue,
-	c.storage_revenue, c.ingress_revenue, c.egress_revenue, c.account_funding, c.risked_collateral, c.raw_revision, c.host_sig, c.renter_sig
+	c.storage_revenue, c.ingress_revenue, c.egress_revenue, c.registry_read, c.registry_write, c.account_funding, c.risked_collateral, c.raw_revision, c.host_sig, c.renter_sig
 	FROM contracts c
 	LEFT JOIN contracts rt ON (c.renewed_to = rt.id)
 	LEFT JOIN contracts rf ON (c.renewed_from = rf.id)
@@ -1038,13 +1038,15 @@ func expireV2Contracts(tx *txn, index types.ChainIndex) (elements []types.V2File
 }
 
 func incrementContractUsage(tx *txn, dbID int64, usage contracts.Usage) error {
-	const query = `SELECT rpc_revenue, storage_revenue, ingress_revenue, egress_revenue, account_funding, risked_collateral FROM contracts WHERE id=$1;`
+	const query = `SELECT rpc_revenue, storage_revenue, ingress_revenue, egress_revenue, registry_read, registry_write, account_funding, risked_collateral FROM contracts WHERE id=$1;`
 	var total contracts.Usage
 	err := tx.QueryRow(query, dbID).Scan(
 		decode(&total.RPCRevenue),
 		decode(&total.StorageRevenue),
 		decode(&total.IngressRevenue),
 		decode(&total.EgressRevenue),
+		decode(&total.RegistryRead),
+		decode(&total.RegistryWrite),
 		decode(&total.AccountFunding),
 		decode(&total.RiskedCollateral))
 	if err != nil {
@@ -1052,11 +1054,13 @@ func incrementContractUsage(tx *txn, dbID int64, usage contracts.Usage) error {
 	}
 	total = total.Add(usage)
 	var updatedID int64
-	err = tx.QueryRow(`UPDATE contracts SET (rpc_revenue, storage_revenue, ingress_revenue, egress_revenue, account_funding, risked_collateral) = ($1, $2, $3, $4, $5, $6) WHERE id=$7 RETURNING id;`,
+	err = tx.QueryRow(`UPDATE contracts SET (rpc_revenue, storage_revenue, ingress_revenue, egress_revenue, registry_read, registry_write, account_funding, risked_collateral) = ($1, $2, $3, $4, $5, $6, $7, $8) WHERE id=$9 RETURNING id;`,
 		encode(total.RPCRevenue),
 		encode(total.StorageRevenue),
 		encode(total.IngressRevenue),
 		encode(total.EgressRevenue),
+		encode(total.RegistryRead),
+		encode(total.RegistryWrite),
 		encode(total.AccountFunding),
 		encode(total.RiskedCollateral),
 		dbID).Scan(&updatedID)
@@ -1440,6 +1444,8 @@ func scanContract(row scanner) (c contracts.Contract, err error) {
 		decode(&c.Usage.StorageRevenue),
 		decode(&c.Usage.IngressRevenue),
 		decode(&c.Usage.EgressRevenue),
+		decode(&c.Usage.RegistryRead),
+		decode(&c.Usage.RegistryWrite),
 		decode(&c.Usage.AccountFunding),
 		decode(&c.Usage.RiskedCollateral),
 		decode(&c.Revision),
